@@ -35,6 +35,15 @@ type project struct {
 	Order     []string          `json:"order,omitempty"`     // registration order of Types (default: sorted)
 	Self      string            `json:"self,omitempty"`      // when set: the root file is named so and the root is registered as this type too
 	RuleOrder []string          `json:"ruleOrder,omitempty"` // registration order of Enums (default: sorted)
+	// Nested: type name -> the types registered on that type's own schema object
+	// (fresh objects, file name "<name> in <owner>") before it is registered on the root.
+	Nested map[string]map[string]string `json:"nested,omitempty"`
+	// Mesh: every type object additionally gets every type object (itself included)
+	// registered on it - the way an API-level caller wires a catalogue of types.
+	Mesh bool `json:"mesh,omitempty"`
+	// TypeFile: when set, every type's text is filed under this one name (type
+	// bodies cut out of one source file) instead of under the type's own name.
+	TypeFile string `json:"typeFile,omitempty"`
 }
 
 func call(sink callSink, op string, text []byte, texts map[string][]byte, f func() error) (ok bool) {
@@ -169,11 +178,31 @@ func buildProject(p *project) (*jschema.JSchema, error) {
 	}
 	objs := map[string]*jschema.JSchema{}
 	for _, n := range order {
-		t := jschema.New(n, p.Types[n])
+		fn := n
+		if p.TypeFile != "" {
+			fn = p.TypeFile
+		}
+		t := jschema.New(fn, p.Types[n])
 		if err := addRules(t); err != nil {
 			return root, err
 		}
 		objs[n] = t
+	}
+	for _, n := range order {
+		for _, in := range sortedKeys(p.Nested[n]) {
+			if err := objs[n].AddType(in, jschema.New(in+" in "+n, p.Nested[n][in])); err != nil {
+				return root, err
+			}
+		}
+	}
+	if p.Mesh {
+		for _, n := range order {
+			for _, m := range order {
+				if err := objs[n].AddType(m, objs[m]); err != nil {
+					return root, err
+				}
+			}
+		}
 	}
 	for _, n := range order {
 		if err := root.AddType(n, objs[n]); err != nil {
@@ -221,6 +250,11 @@ func (p *project) texts() map[string][]byte {
 	}
 	for k, v := range p.Regex {
 		t[k] = []byte(v)
+	}
+	for o, m := range p.Nested {
+		for k, v := range m {
+			t[k+" in "+o] = []byte(v)
+		}
 	}
 	for k, v := range p.Enums {
 		t[k] = []byte(v)
